@@ -446,6 +446,26 @@ inline std::vector<int> genWideInput(Choices &c, const Gram &g, const std::vecto
   return w;
 }
 
+// one symbol gets a name of several hundred characters (the first object put on a name stack is larger than its segment)
+inline void elongate(Choices &c, GramDef &gd) {
+  if (gd.raw.rules.empty()) return;
+  std::string from = (c.flip() || gd.raw.terms.empty()) ? gd.raw.rules[0].lhs : gd.raw.terms[0].first;
+  if (from.empty() || !(isalpha((unsigned char)from[0]) || from[0] == '_')) return; // character constants keep their spelling
+  std::string to = from + std::string(300 + c.upto(1400), 'q'); // every length: segment arithmetic depends on it
+  for (auto &t : gd.raw.terms) if (t.first == from) t.first = to;
+  for (auto &r : gd.raw.rules) { if (r.lhs == from) r.lhs = to; for (auto &x : r.rhs) if (x == from) x = to; }
+  if (gd.use_text) {
+    std::string out; const std::string &t = gd.text;
+    auto idch = [](char ch) { return isalnum((unsigned char)ch) || ch == '_'; };
+    for (size_t i = 0; i < t.size();) {
+      if (t[i] == '\'') { size_t j = std::min(t.size(), i + 3); out += t.substr(i, j - i); i = j; continue; }
+      if (idch(t[i])) { size_t j = i; while (j < t.size() && idch(t[j])) j++; std::string w = t.substr(i, j - i); out += (w == from ? to : w); i = j; continue; }
+      out += t[i++];
+    }
+    gd.text = out;
+  }
+}
+
 // grammar feature labels (measured distribution of the generator)
 struct Feat { bool nullable = false, unit = false, leftrec = false, hiddenleft = false, rightrec = false, err = false, dupRhs = false; };
 inline Feat features(const Gram &g, const Info &in) {
